@@ -318,6 +318,13 @@ impl Workspace {
         for (path, previous) in undo.into_iter().rev() {
             match previous {
                 Some(bytes) => {
+                    // A later operation of the failed patch may have created directories where
+                    // this file used to be (delete `a`, then add `a/b`). The files added below
+                    // are already gone (reverse order); drop the empty directories left behind,
+                    // otherwise the write below fails and the file is lost.
+                    if path.is_dir() {
+                        remove_empty_dirs(&path);
+                    }
                     if let Some(parent) = path.parent() {
                         let _ = fs::create_dir_all(parent);
                     }
@@ -330,6 +337,18 @@ impl Workspace {
         }
         Ok(())
     }
+}
+
+/// Removes `dir` and the directories below it as far as they are empty; never removes a file.
+fn remove_empty_dirs(dir: &Path) {
+    if let Ok(entries) = fs::read_dir(dir) {
+        for entry in entries.flatten() {
+            if entry.file_type().map(|kind| kind.is_dir()).unwrap_or(false) {
+                remove_empty_dirs(&entry.path());
+            }
+        }
+    }
+    let _ = fs::remove_dir(dir);
 }
 
 fn now_ms() -> u64 {
@@ -384,6 +403,24 @@ mod tests {
 
         assert_eq!(fs::read_to_string(&file_a).unwrap(), "one");
         assert!(!file_b.exists());
+    }
+
+    #[test]
+    fn apply_patch_failure_restores_file_replaced_by_directory() {
+        let dir = tempdir().expect("tmp");
+        let root = dir.path();
+        let workspace = Workspace::new(root).expect("workspace");
+        fs::write(root.join("a.txt"), b"keep\n").expect("write");
+
+        let patch = r#"*** Begin Patch
+*** Delete File: a.txt
+*** Add File: a.txt/deep/inner.txt
++inner
+*** Delete File: missing.txt
+*** End Patch"#;
+        let err = workspace.apply_patch(patch).expect_err("fails");
+        assert_eq!(err.kind(), io::ErrorKind::NotFound);
+        assert_eq!(fs::read(root.join("a.txt")).unwrap(), b"keep\n");
     }
 
     #[test]
